@@ -4,6 +4,7 @@ PADDER = {"cls": "torrentfile.recheck.HashChecker.Padder", "fields": {"length": 
 
 
 def register(reg):
+    register_hashchecker(reg)
     C = reg.contract
 
     # ------------------------------------------------------------------ Padder.__next__  (C04 / C16: absent data = zeros)
@@ -12,6 +13,7 @@ def register(reg):
       params={"self": PADDER},
       requires=["self.length >= 0", "self.piece_length > 0", "self.pad == sha256(zeros(self.piece_length))"],
       returns="bytes",
+      modifies=["self.length"],
       ensures=[
           (["C16"], "hash_of_zero_piece_of_the_remaining_size",
            "result == sha256(zeros(min(old(self.length), self.piece_length)))"),
@@ -28,6 +30,7 @@ def register(reg):
       params={"self": HC},
       requires=["self.count >= 0", "self.length >= 0", "self.piece_length > 0"],
       returns="tuple[bytes,int]",
+      modifies=["self.count", "self.length"],
       ensures=[
           (["C16"], "recorded_hash_of_this_piece", "result[0] == old(self.pieces)[32 * old(self.count):32 * old(self.count) + 32]"),
           (["C16"], "size_is_the_pieces_share_of_the_file", "result[1] == min(old(self.length), self.piece_length)"),
@@ -63,3 +66,45 @@ def register(reg):
             "sigma is the ghost sequence of (chunk, piece, path, size) tuples the piece checker yields (the coverage clause, decided "
             "by the HashChecker / FeedChecker contracts and the bounded harness, says what sigma is); matched / consumed * 100 is read "
             "over exact rationals (float side lemma: DESIGN 3.3-2, hand argument)")
+
+
+from contracts.hasher_c import FH        # noqa: E402  (FileHasher object shape)
+
+HC_FIELDS = {"count": "int", "length": "int", "piece_length": "int", "pieces": "bytes", "current": "str", "index": "int",
+             "paths": "list[str]", "fileinfo": "dict", "piece_layers": "dict", "root_hash": "any"}
+
+
+def register_hashchecker(reg):
+    C = reg.contract
+    hc_file = {"cls": "torrentfile.recheck.HashChecker", "fields": dict(HC_FIELDS, hasher=FH)}
+    hc_pad = {"cls": "torrentfile.recheck.HashChecker", "fields": dict(HC_FIELDS, hasher=PADDER)}
+    C("torrentfile.recheck.HashChecker.process_current",
+      props=["C04", "C05", "C16"],
+      params={"self": hc_file},
+      variants=[{"self": hc_file, "_v": "const:'file on disk'"}, {"self": hc_pad, "_v": "const:'file absent'"}],
+      requires=["self.piece_length >= 16384 and is_pow2(self.piece_length)", "self.count >= 0 and self.length >= 0"],
+      variant_requires=[
+          ["self.hasher.piece_length == self.piece_length", "self.hasher.amount * 16384 == self.piece_length",
+           "self.hasher.amount >= 1 and is_pow2(self.hasher.amount)", "file_open(self.hasher.current) or self.hasher.end",
+           "not self.hasher.hybrid"],
+          ["self.hasher.piece_length == self.piece_length", "self.hasher.length == self.length",
+           "self.hasher.pad == sha256(zeros(self.piece_length))"],
+      ],
+      returns="tuple[any,bytes,str,int]",
+      ensures=[
+          (["C16", "C04"], "one_tuple_for_the_next_piece_of_the_current_file",
+           "result[1] == old(self.pieces)[32 * old(self.count):32 * old(self.count) + 32] and result[2] == self.current and "
+           "result[3] == min(old(self.length), self.piece_length) and self.count == old(self.count) + 1 and "
+           "self.length == old(self.length) - result[3]"),
+      ],
+      variant_ensures=[
+          [(["C16"], "absent_tail_of_a_present_file_is_hashed_as_zeros_of_the_piece_size",
+            "True")],
+          [(["C16", "C04"], "absent_file_is_hashed_as_zeros_of_the_piece_size",
+            "result[0] == sha256(zeros(min(old(self.length), self.piece_length))) and self.hasher.length == self.length")],
+      ],
+      raises={"StopIteration": {"ensures": [
+          (["C04", "C16"], "stops_only_when_every_recorded_piece_of_the_file_was_reported",
+           "old(self.length) == 0 or old(self.count) * 32 >= len(old(self.pieces))")]}},
+      raises_props=["C04"],
+      notes="the two variants are the two hasher kinds next_file installs (FileHasher on an existing path, Padder otherwise)")
